@@ -53,6 +53,7 @@ var templates = []string{
 	`$({N}) = {S}`, `x = $({N})`, `$({N})++`, `$({N}) += {N}`, `--$({N})`, `NF = {N}`, `NF += {N}`, `NF--`, `ARGC = {N}`, `$0 = {S}`, `$0 = $0 {S} $0`,
 	`x = substr({S}, {N}, {N})`, `x = substr({S}, {N})`, `x = substr($0, {N}, {N})`, `x = sprintf("%*d", {N}, {N})`, `x = sprintf("%.*f", {N}, {N})`, `x = sprintf("%*.*s", {N}, {N}, {S})`,
 	`x = sprintf("%c", {N})`, `x = sprintf("%c", {S})`, `x = sprintf("%d %i %o %x %X %u %e %g", {N}, {N}, {N}, {N}, {N}, {N}, {N}, {N})`, `x = sprintf("%" {N} "d", 1)`, `x = sprintf({S}, {N})`, `x = sprintf({S}, {S}, {N})`, `x = sprintf({S})`,
+	`x = system({S})`, `{S} | getline x; close({S})`, `print {N} | {S}; close({S})`, `"echo hi" | getline; "echo hi" | getline y`, `print "x" | "cat"; print "y" | "cat"`, `while (("ls" | getline line) > 0) if (++cnt > 5) break`, `system("true"); fflush(); system("")`,
 	`printf {S}`, `printf {S}, {N}, {S}`,
 	// one format string first used with enough arguments, then (byte-identical) with too few, and the other way round
 	`printf "%s-%s|", {N}, {S}; printf "%s-%s|", {N}`, `x = sprintf("%d %d", {N}, {N}); x = sprintf("%d %d", {N})`, `printf "%*d|", {k}, {N}; printf "%*d|", {k}`, `x = sprintf("%s %c %d", {S}, {N}, {N}) sprintf("%s %c %d")`,
@@ -124,34 +125,35 @@ func fill(t *rapid.T, tpl string) string {
 }
 
 type Cfg struct {
-	Chars   bool     `json:"chars"`
-	Mode    string   `json:"mode"` // "", csv, tsv, csv-header
-	Newline int      `json:"newline"`
-	Vars    []h.Str  `json:"vars"` // h.Str: operands and values may hold invalid UTF-8, which must survive the replay file
-	Args    []h.Str  `json:"args"`
-	NoReads bool     `json:"no_reads"`
-	Chunk   uint64   `json:"chunk"` // how stdin is delivered
-	Twice   bool     `json:"twice"` // run a second time on the same Interpreter
-	StdinK  int      `json:"stdin_kind,omitempty"` // dynamic type of Config.Stdin: 0 *ChunkReader, 1 a func type with Read and Close (not comparable), 2 a struct value holding a slice (not comparable) with Read and Close, 3 *os.File-like ReadCloser pointer
+	Chars    bool    `json:"chars"`
+	Mode     string  `json:"mode"` // "", csv, tsv, csv-header
+	Newline  int     `json:"newline"`
+	Vars     []h.Str `json:"vars"` // h.Str: operands and values may hold invalid UTF-8, which must survive the replay file
+	Args     []h.Str `json:"args"`
+	NoReads  bool    `json:"no_reads"`
+	Chunk    uint64  `json:"chunk"`                // how stdin is delivered
+	Twice    bool    `json:"twice"`                // run a second time on the same Interpreter
+	BadShell bool    `json:"bad_shell,omitempty"`  // NoExec off, but Config.ShellCommand names a program that does not exist: every process start fails
+	StdinK   int     `json:"stdin_kind,omitempty"` // dynamic type of Config.Stdin: 0 *ChunkReader, 1 a func type with Read and Close (not comparable), 2 a struct value holding a slice (not comparable) with Read and Close, 3 *os.File-like ReadCloser pointer
 }
 
 // Readers of unusual dynamic types: Config.Stdin is an io.Reader, and nothing says its dynamic type is comparable.
 type funcReader func(p []byte) (int, error)
 
 func (f funcReader) Read(p []byte) (int, error) { return f(p) }
-func (f funcReader) Close() error                { return nil }
+func (f funcReader) Close() error               { return nil }
 
 type sliceReader struct {
 	parts []io.Reader // a slice makes the struct type uncomparable
 }
 
 func (r sliceReader) Read(p []byte) (int, error) { return r.parts[0].Read(p) }
-func (r sliceReader) Close() error                { return nil }
+func (r sliceReader) Close() error               { return nil }
 
 type ptrReadCloser struct{ r io.Reader }
 
 func (r *ptrReadCloser) Read(p []byte) (int, error) { return r.r.Read(p) }
-func (r *ptrReadCloser) Close() error                { return nil }
+func (r *ptrReadCloser) Close() error               { return nil }
 
 func stdinOf(kind int, r io.Reader) io.Reader {
 	switch kind {
@@ -179,7 +181,7 @@ var inputs = []string{
 func genCfg(t *rapid.T) Cfg {
 	c := Cfg{Chars: rapid.Bool().Draw(t, "chars"), Mode: rapid.SampledFrom([]string{"", "", "", "csv", "tsv", "csv-header"}).Draw(t, "mode"), Newline: rapid.IntRange(0, 2).Draw(t, "newline"),
 		NoReads: rapid.Bool().Draw(t, "noreads"), Chunk: rapid.Uint64().Draw(t, "chunk"), Twice: rapid.IntRange(0, 4).Draw(t, "twice") == 0,
-		StdinK: rapid.SampledFrom([]int{0, 0, 0, 0, 1, 2, 3}).Draw(t, "stdinkind")}
+		StdinK: rapid.SampledFrom([]int{0, 0, 0, 0, 1, 2, 3}).Draw(t, "stdinkind"), BadShell: rapid.IntRange(0, 4).Draw(t, "badshell") == 0}
 	if rapid.IntRange(0, 3).Draw(t, "hasvars") == 0 {
 		name := rapid.SampledFrom([]string{"FS", "RS", "OFS", "CONVFMT", "OFMT", "NF", "ARGC", "INPUTMODE", "OUTPUTMODE", "SUBSEP", "x", "NR", "RSTART"}).Draw(t, "vname")
 		val := rapid.SampledFrom([]string{"", " ", "((", "[", "\x80", "a+", "1e30", "-1", "csv", "csv header", "xyz", "%d", "%s", "%.99999f", "\n", "é", "1000001"}).Draw(t, "vval")
@@ -270,6 +272,11 @@ func mkConfig(c Cfg, input []byte, out io.Writer) *interp.Config {
 	vars := append(strs(c.Vars), "DATAFILE", dataFile)
 	cfg := &interp.Config{Stdin: stdinOf(c.StdinK, sandbox.NewChunkReader(input, sandbox.Chunking(len(input), c.Chunk))), Output: out, Error: io.Discard, Argv0: "goawk", Chars: c.Chars, Vars: vars, Args: strs(c.Args),
 		NoExec: true, NoFileWrites: true, NoFileReads: c.NoReads, Environ: []string{"HOME", "/"}, NewlineOutput: interp.NewlineMode(c.Newline)}
+	if c.BadShell {
+		// nothing can actually be started: the paths taken when starting a process fails are exercised instead
+		cfg.NoExec = false
+		cfg.ShellCommand = []string{"/nonexistent/shell-for-c02", "-c"}
+	}
 	switch c.Mode {
 	case "csv":
 		cfg.InputMode, cfg.OutputMode = interp.CSVMode, interp.CSVMode
